@@ -676,20 +676,44 @@ class TimeLayer(C.Stream):
     chunk = 500
     corpus = [{"ms": 0}, {"ms": 1}, {"ms": 999}, {"ms": 1000}, {"ms": R.T0}, {"ms": TMAX_MS - 1}, {"x": 1600000000.0005},
               {"x": 0.0015}, {"x": 1.0004999}, {"x": 1600000000.9995},
+              # a summer and a winter instant under zones that observe daylight saving (the text is UTC whatever the zone)
+              {"ms": 1783072800123, "tz": "CET-1CEST,M3.5.0,M10.5.0/3"}, {"ms": 1767225600456, "tz": "CET-1CEST,M3.5.0,M10.5.0/3"},
+              {"ms": 1783072800123, "tz": "AEST-10AEDT,M10.1.0,M4.1.0/3"}, {"ms": 1767225600456, "tz": "EST5EDT,M3.2.0,M11.1.0"},
               {"x": 4253578702.2205}]     # just below a tie, where doubles are 0.48 µs apart (a past false alarm of this oracle)
 
+    # the time zone of the PROCESS is an input: report times are UTC, nothing may depend on the local zone (POSIX TZ
+    # strings, so no zone database is needed: zones with and without daylight saving, both hemispheres, odd offsets)
+    ZONES = [None, "UTC0", "CET-1CEST,M3.5.0,M10.5.0/3", "EST5EDT,M3.2.0,M11.1.0", "AEST-10AEDT,M10.1.0,M4.1.0/3",
+             "IST-5:30", "NST3:30NDT,M3.2.0,M11.1.0", "<+13>-13", "<-11>11"]
+
     def gen(self, rng, i):
+        tz = rng.choice(self.ZONES) if rng.random() < 0.5 else None
         if rng.random() < 0.5:
             return {"ms": rng.choice([rng.randrange(0, TMAX_MS), R.T0 + rng.randrange(0, 10**9), rng.randrange(0, 10**6),
-                                      TMAX_MS - 1 - rng.randrange(0, 10**6)])}
+                                      TMAX_MS - 1 - rng.randrange(0, 10**6),
+                                      # all seasons of a few years: daylight-saving periods of both hemispheres
+                                      1577836800000 + rng.randrange(0, 4 * 366 * 86400 * 1000)]), "tz": tz}
         x = rng.choice([rng.uniform(0, TMAX_MS / 1000), R.T0 / 1000 + rng.uniform(0, 10**5), rng.randrange(0, 10**9) / 1000 + 0.0005])
-        return {"x": x}
+        return {"x": x, "tz": tz}
 
     def impl(self, case):
+        import time as _time
         from lemoncheesecake.reporting.report import format_time_as_iso8601, parse_iso8601_time
         x = case["ms"] / 1000.0 if "ms" in case else case["x"]
-        text = format_time_as_iso8601(x)
-        back = parse_iso8601_time(text)
+        old = os.environ.get("TZ")
+        try:
+            if case.get("tz"):
+                os.environ["TZ"] = case["tz"]
+                _time.tzset()
+            text = format_time_as_iso8601(x)
+            back = parse_iso8601_time(text)
+        finally:
+            if case.get("tz"):
+                if old is None:
+                    os.environ.pop("TZ", None)
+                else:
+                    os.environ["TZ"] = old
+                _time.tzset()
         return {"text": text, "back": repr(back), "back_ms": repr(back * 1000), "x": repr(x)}
 
     def oracle(self, case, obs):
@@ -715,7 +739,7 @@ class TimeLayer(C.Stream):
         return True
 
     def features(self, case, obs):
-        return ["exact-ms" if "ms" in case else "float"]
+        return ["exact-ms" if "ms" in case else "float", "tz=" + ("process-default" if not case.get("tz") else "dst" if "," in case["tz"] else "fixed-offset")]
 
 
 # ---- sequences: the same live objects saved, modified, saved again --------------------------------
